@@ -148,10 +148,27 @@ static std::string mutate_once(std::string b, std::string* kind) {
   return b;
 }
 
+// base file, then the input derived from it, then the base file again: what a file loads as must not depend on which
+// other files (for instance a near miss of itself) were loaded before it
+static bool oracle_with_base(const std::string& base, const std::string& input, std::string* why, std::string* cls) {
+  const zm::TzFile fb = zm::read_tzif(base);
+  const bool base_ok = c12::declared_data_len(base) <= (1u << 17);
+  c12::Outcome o1; if (base_ok) o1 = c12::load_once(base, "c12base", fb);
+  if (!c12::oracle(input, why, cls, true)) return false;
+  if (base_ok) {
+    const c12::Outcome o2 = c12::load_once(base, "c12base", fb);
+    if (o1.loaded != o2.loaded || o1.fp != o2.fp || o1.desc != o2.desc) {
+      *why = "a file loaded before and after another (derived) file was loaded answers differently: " + (o1.loaded ? o1.desc : std::string("not loaded")) + " vs " + (o2.loaded ? o2.desc : std::string("not loaded"));
+      return false;
+    }
+  }
+  return true;
+}
 static bool replay(const vf::Case& c, std::string* why) {
   vf::Evidence ev; EV = &ev;
   std::string cls;
   alarm(60);
+  if (c.has("base_hex")) return oracle_with_base(vf::unhex(c.get("base_hex")), vf::unhex(c.get("input_hex")), why, &cls);
   return c12::oracle(vf::unhex(c.get("input_hex")), why, &cls, true);
 }
 
@@ -163,7 +180,7 @@ static void run(const vf::Args& a, vf::Evidence& ev, vf::Reporter& rep) {
             "boundary, bit flips, version bytes, insert/delete, all-types-DST; splices of two files. Oracle: ASan/UBSan/assert "
             "clean, terminates (20 s alarm; a healthy load takes < 10 ms), failed loads leave UTC, same bytes loaded twice give "
             "the same outcome and the same fingerprint over a probe panel (lookups at decoded transitions +-1, sentinels, "
-            "limits; civil lookups; next/prev; a forward chain; description). Non-trivial = passes the magic check and "
+            "limits; civil lookups; next/prev; a forward chain; description); for half of the mutants the unmutated base file is loaded before and after the mutant and must answer the same. Non-trivial = passes the magic check and "
             "reaches header/data decoding; distinct by content.";
   std::vector<std::string> shipped = zp::shipped_files();
   long budget = a.budget(4000, 60000);
@@ -199,10 +216,12 @@ static void run(const vf::Args& a, vf::Evidence& ev, vf::Reporter& rep) {
       vf::write_file(a.workdir + nm, b);
     }
     vf::Case c; c.set("input_hex", vf::hex(b)); c.set("mutations", kinds);
+    const bool with_base = n > 0 && base.size() <= 65536 && *vf::range<int>(0, 1) == 0;
+    if (with_base) { c.set("base_hex", vf::hex(base)); EV->cls("base_reloaded_after_the_mutant"); }
     vf::CurrentScope cur([&]() { return c; });
     std::string why, cls;
-    alarm(20);
-    bool ok = c12::oracle(b, &why, &cls, true);
+    alarm(30);
+    bool ok = with_base ? oracle_with_base(base, b, &why, &cls) : c12::oracle(b, &why, &cls, true);
     alarm(0);
     EV->eval();
     EV->cls("outcome_" + cls);
